@@ -3,6 +3,7 @@
 From Coq Require Import List NArith ZArith Bool String.
 From BL Require Import Base.Bytes Reader.Entry Reader.SegMap Reader.EventStream Reader.Filter Render.Pretty Render.Time Render.Message Queue.QueueModel Session.SessionModel Mser.Types Mser.Encode Mser.Tag Mser.Visit.
 From BL Require Mser.Decode.
+From BL Require Render.FloatG.
 Import ListNotations.
 Local Open Scope N_scope.
 
@@ -37,7 +38,7 @@ Definition end_token (st : endst) : bytes :=
 
 (** stage-1 stand-ins; replaced by Render.Message / Render.Time when present *)
 (** %.16g is not modelled yet: floating point leaves print as a marker the generators avoid *)
-Definition float_stub (a : aty) (raw : N) : bytes := str "<float>".
+Definition float_stub (a : aty) (raw : N) : bytes := FloatG.float_text a raw.
 Definition stub_msg (local : bool) (tfmt : bytes) (v : view) : bytes * bool := (str "<m>", true).
 (** the code as it is now: floor (D3), non-negative %y (D4), wide abs (D5) *)
 Definition cfg_now := mkTC true true true.
@@ -114,7 +115,7 @@ Definition api_resume (fmt tfmt : bytes) (pieces : list bytes) : bytes :=
 (** mserialize::visit on an arbitrary tag and arbitrary bytes: callbacks (plain visitor) and text (ToStringVisitor) *)
 Definition vcb_text (c : cb) : bytes :=
   match c with
-  | CArith l raw => str "A" ++ [l] ++ dec raw
+  | CArith l raw => str "A" ++ [l] ++ dec (if N.eqb l 68 then N.modulo raw (2 ^ 80) else raw)
   | CSeqBegin n t => str "[" ++ dec n ++ str ":" ++ hex t
   | CSeqEnd => str "]"
   | CSeqChars cs => str "C" ++ hex cs
@@ -209,7 +210,7 @@ Fixpoint all_prefixes_fail (t : ty) (e : bytes) (n : nat) : bool :=
   end.
 Definition cb_text (c : cb) : bytes :=
   match c with
-  | CArith l raw => str "A" ++ [l] ++ dec raw
+  | CArith l raw => str "A" ++ [l] ++ dec (if N.eqb l 68 then N.modulo raw (2 ^ 80) else raw)
   | CSeqBegin n t => str "[" ++ dec n ++ str ":" ++ hex t
   | CSeqEnd => str "]"
   | CSeqChars cs => str "C" ++ hex cs
